@@ -35,7 +35,7 @@ WEIGHTS = {"add_node": 6, "add_edge": 6, "paint": 6, "swap": 2.5, "update_attrs"
 
 
 def plan(tier, seed):
-    return common.session_plan(PROP, tier, seed, quick=480, thorough=10000)
+    return common.session_plan(PROP, tier, seed, quick=2400, thorough=40000)
 
 
 def run_shard(spec):
